@@ -697,6 +697,14 @@ def run(ctx) -> None:
     ctx.rule("C02.R8", "the emitted node list follows the hierarchy (root first, parents before children, siblings in order), not index order (shared with C03.R3/R4): a reload rebuilds children in list order", floor=2)
     from .c03 import r3_r4_order
     r3_r4_order(ctx, rule3="C02.R8", rule4="C02.R8")
+    ctx.rule("C02.R9", "the link store the encoder enumerates stays consistent under edits made before saving: removals close the gap on both ports, "
+             "deletion removes every link of the node, port counts are updated for the node that owns the port (shared with C04.R3/R4/R6)", floor=6)
+    from .c04 import r3_dense_suboffsets, r4_deletion_complete, r6_r7_tables
+    hugr_cls = ctx.program.cls(f"{BASE}.Hugr")
+    with ctx.as_rule(C04_R3="C02.R9", C04_R4="C02.R9", C04_R6="C02.R9", C04_R7="C02.R9"):
+        r3_dense_suboffsets(ctx, hugr_cls, hugr_cls.module.path)
+        r4_deletion_complete(ctx, hugr_cls, hugr_cls.module.path)
+        r6_r7_tables(ctx, hugr_cls, hugr_cls.module.path, only={"links", "add_link"})
     ctx.stats["nf call sites resolved/unresolved"] = [nf.resolved_calls, nf.unresolved_calls]
     from .. import lints
     lints.arm(ctx)
